@@ -88,6 +88,11 @@ def collect(ctx, prop):
     stf = ctx.path("stress-trace.ndjson")
     pr = ctx.run_harness(["concstress", ssf, stf], race=True, timeout=2400, check=False, env={"GORACE": "halt_on_error=0 exitcode=0 history_size=5"})
     races = parse_races(pr.stderr)
+    m = re.search(r"fatal error: concurrent map [a-z ]+", pr.stderr)
+    if m:
+        # the runtime's own detector of unsynchronised map access aborted the process
+        frames = re.findall(r'\n\s+(/repo/[^\s:]+):(\d+)', pr.stderr)
+        races["runtime:" + m.group(0).replace("fatal error: ", "").replace(" ", "-") + ":" + "+".join(sorted({os.path.basename(f) for f, _ in frames[:4]}))] = pr.stderr[-3000:]
     if pr.returncode != 0 and not races:
         raise Inconclusive("race-instrumented workload failed rc=%d: %s" % (pr.returncode, pr.stderr[-1500:]))
     for key, text in races.items():
